@@ -434,6 +434,20 @@ def serveLookup (H : Hash) (store : Nat → Option Entry) (qid : Nat) (cd : Bool
 def capTTL (isScoped : Bool) (cap ttl : Nat) : Nat :=
   if isScoped && decide (cap > 0) && decide (ttl > cap) then cap else ttl
 
+/-- `TTLManager.Calculate`: the cache's own bounds (`dnsutil.MinCacheTTL` = 5 s,
+`dnsutil.MaxCacheTTL` = 24 h; pinned by Gen facts). -/
+def clampTTL (ttl : Nat) : Nat := if ttl < 5 then 5 else if ttl > 86400 then 86400 else ttl
+
+/-- the lifetime `Store.setFromResponseWithKey` gives an entry:
+`capTTL(s.positive.ttl.Calculate(msgTTL))` — bounds FIRST, scoped limit LAST, so a
+limit below the 5 s floor is still honoured. -/
+def storedTTL (isScoped : Bool) (cap msgTTL : Nat) : Nat := capTTL isScoped cap (clampTTL msgTTL)
+
+/-- the query `failover` puts to the fallback servers after a SERVFAIL: a fresh
+question (name, type, class, CD) with a bare OPT — nothing of the client's OPT,
+whatever entry the request came in through. -/
+def fallbackQueryOpts (_clientOpts : Option (List Opt)) : List Opt := []
+
 /-- the scope `cache.ResponseWriter.WriteMsg` keys the answer under. -/
 def storeScope (p : Option Policy) (cs : Option Prefix) (respOpts : Option (List Opt)) : Option Prefix :=
   match cs with
@@ -454,7 +468,7 @@ deriving Repr, DecidableEq
 def storeEntry (p : Option Policy) (cs : Option Prefix) (respOpts : Option (List Opt))
     (qid : Nat) (cd : Bool) (ttl cap ans : Nat) (_kind : RespKind := .success) : Entry :=
   let sc := storeScope p cs respOpts
-  { qid := qid, cd := cd, scope := sc, ttl := capTTL sc.isSome cap ttl, ans := ans }
+  { qid := qid, cd := cd, scope := sc, ttl := storedTTL sc.isSome cap ttl, ans := ans }
 
 /-- the part of `cache.New` that decides prefetch threshold and scoped TTL limit
 from the configuration: `CacheConfig.Validate` fails for a cache size below 1024
